@@ -74,6 +74,22 @@ def scale_graph(draw, raw_type, max_scales=5, types=('Linear', 'Polynomial', 'Ta
     return graph
 
 
+def chain_before(sensor, shape, m=2.0, c=0.0, m2=0.5, c2=1.0):
+    """Put Linear scales in front of a sensor scale. Returns (graph, raw_for) where raw_for(v) is the raw value that makes
+    the sensor scale see v.  shape 0: sensor reads the raw data; 1: [L0, S<-0]; 2: [L0, L1<-raw (unused), S<-0];
+    3: [L0, L1<-0, S<-1].  Slopes should be powers of two so that raw_for is exact."""
+    L0 = {'type': 'Linear', 'slope': m, 'intercept': c, 'src': None, 'explicit_src': False}
+    if shape == 0:
+        return [dict(sensor, src=None)], (lambda v: v)
+    if shape == 1:
+        return [L0, dict(sensor, src=0)], (lambda v: (v - c) / m)
+    if shape == 2:
+        L1 = {'type': 'Linear', 'slope': m2, 'intercept': c2, 'src': None, 'explicit_src': True}
+        return [L0, L1, dict(sensor, src=0)], (lambda v: (v - c) / m)
+    L1 = {'type': 'Linear', 'slope': m2, 'intercept': c2, 'src': 0, 'explicit_src': True}
+    return [L0, L1, dict(sensor, src=1)], (lambda v: ((v - c2) / m2 - c) / m)
+
+
 def _src_val(ref):
     return RAW if ref is None else ref
 
